@@ -1,6 +1,6 @@
-(* C09/ProofsStats.v — focal_stats layers, nan-ignoring reducers, custom_kernel,
-   the hotspot ladder. *)
-Require Import Base.Prelude C09.Generated C09.Model C09.Proofs.
+(* C09/ProofsStats.v — focal_stats layers (every arithmetic instance), nan-ignoring reducers,
+   custom_kernel, the hotspot ladder (exact instance). *)
+Require Import Base.Prelude C09.Generated C09.Arith C09.Model C09.Proofs.
 From Coq Require Import QArith Qabs Lqa.
 Open Scope Z_scope.
 
@@ -36,20 +36,23 @@ Qed.
 (* focal.apply and focal_stats                                          *)
 (* ------------------------------------------------------------------ *)
 Section FocalStats.
-  Variable qsqrt : Q -> Q.
+  Variable A : Arith.
 
   (* the reducer the documentation promises for each statistic name (hand-written expectation;
-     the table of the source is in Generated.function_mapping) *)
-  Definition named_reducer (s : stat_name) : grid xq -> xq :=
+     the table of the source is in Generated.function_mapping), followed by the store into the float32 output *)
+  Definition named_reducer (s : stat_name) : grid (T32 A) -> T32 A :=
     match s with
-    | S_mean => calc_mean | S_max => calc_max | S_min => calc_min | S_range => calc_range
-    | S_std => calc_std qsqrt | S_var => calc_var | S_sum => calc_sum
+    | S_mean => fun w => narrow A (calc_mean A w)
+    | S_max => calc_max A | S_min => calc_min A | S_range => calc_range A
+    | S_std => fun w => narrow A (calc_std A w)
+    | S_var => fun w => narrow A (calc_var A w)
+    | S_sum => calc_sum A
     end.
 
-  Lemma lookup_named s : exists p, lookup s function_mapping = Some p /\ reducer_of qsqrt p = named_reducer s.
+  Lemma lookup_named s : exists p, lookup s function_mapping = Some p /\ reducer_of A p = named_reducer s.
   Proof. destruct s; eexists; (split; [vm_compute; reflexivity|reflexivity]). Qed.
 
-  Variables (data : grid xq) (kernel : grid Q) (rows cols hr hc : Z).
+  Variables (data : grid (T32 A)) (kernel : grid (T64 A)) (rows cols hr hc : Z).
   Hypothesis Hhr : 0 <= hr.
   Hypothesis Hhc : 0 <= hc.
   Hypothesis Hdata : wf data rows cols.
@@ -61,67 +64,111 @@ Section FocalStats.
     destruct Hkernel as [L C]. unfold nrows, ncols. rewrite L, C by lia. now apply custom_kernel_odd.
   Qed.
 
-  Lemma focal_apply_spec {T} (nan zero : T) func (d : grid T) :
-    wf d rows cols ->
-    focal_apply nan zero 0%Q is_one_q func d kernel =
-    Some (tabulate (fun y x => func (window_spec nan 0%Q is_one_q d kernel rows cols hr hc y x)) rows cols).
+  Lemma focal_apply_spec func :
+    focal_apply_A A func data kernel =
+    Some (tabulate (fun y x => func (window_spec (snan A) (dnan A) (is_one A) data kernel rows cols hr hc y x)) rows cols).
   Proof.
-    intros Hd. unfold focal_apply. rewrite kernel_accepted.
-    rewrite (apply_numpy_spec nan zero 0%Q is_one_q func d kernel rows cols hr hc) by assumption.
+    unfold focal_apply_A, focal_apply. rewrite kernel_accepted.
+    rewrite (apply_numpy_spec (snan A) (szero A) (dnan A) (is_one A) func data kernel rows cols hr hc) by assumption.
     reflexivity.
   Qed.
 
   (* layer k of focal_stats is apply with the reducer named by stats_funcs[k] *)
   Lemma focal_stats_spec : forall stats,
-    focal_stats qsqrt data kernel stats =
+    focal_stats A data kernel stats =
     Some (map (fun s => tabulate (fun y x =>
-                 named_reducer s (window_spec None 0%Q is_one_q data kernel rows cols hr hc y x)) rows cols) stats).
+                 named_reducer s (window_spec (snan A) (dnan A) (is_one A) data kernel rows cols hr hc y x)) rows cols) stats).
   Proof.
     intros stats. unfold focal_stats. rewrite kernel_accepted.
     induction stats as [|s stats IH]; [reflexivity|].
     cbn [focal_stats_cpu map].
     destruct (lookup_named s) as (p & Hl & Hr). rewrite Hl.
-    rewrite focal_apply_spec by assumption. rewrite IH, Hr. reflexivity.
+    rewrite focal_apply_spec. rewrite IH, Hr. reflexivity.
   Qed.
 End FocalStats.
 
 (* ------------------------------------------------------------------ *)
 (* nan-ignoring reducers see exactly the non-NaN cells under the kernel *)
+(* (every cell type, every NaN test that recognises the fill value)     *)
 (* ------------------------------------------------------------------ *)
-Lemma somes_app {A} (l1 l2 : list (option A)) : somes (l1 ++ l2) = somes l1 ++ somes l2.
-Proof. induction l1 as [|[a|] l1 IH]; simpl; congruence. Qed.
+Definition valid {T} (isn : T -> bool) (l : list T) : list T := filter (fun v => negb (isn v)) l.
 
-Lemma somes_concat_map {A B} (f : B -> list (option A)) l :
-  somes (concat (map f l)) = concat (map (fun b => somes (f b)) l).
-Proof. induction l as [|b l IH]; simpl; [reflexivity|]. now rewrite somes_app, IH. Qed.
+Lemma filter_concat {T} (f : T -> bool) (l : list (list T)) : filter f (concat l) = concat (map (filter f) l).
+Proof. induction l as [|a l IH]; cbn; [reflexivity|]. now rewrite filter_app, IH. Qed.
 
-Lemma somes_cond_map {A B} (c : B -> bool) (f : B -> option A) l :
-  somes (map (fun j => if c j then f j else None) l) =
-  somes (concat (map (fun j => if c j then [f j] else []) l)).
+Lemma valid_cond_map {T B} (isn : T -> bool) (nan : T) (c : B -> bool) (f : B -> T) l :
+  isn nan = true ->
+  valid isn (map (fun j => if c j then f j else nan) l) =
+  valid isn (concat (map (fun j => if c j then [f j] else []) l)).
 Proof.
-  induction l as [|b l IH]; simpl; [reflexivity|].
-  destruct (c b); simpl; [destruct (f b)|]; now rewrite IH.
+  intros Hn. unfold valid. induction l as [|b l IH]; cbn [map concat filter]; [reflexivity|].
+  destruct (c b); cbn [app filter].
+  - destruct (negb (isn (f b))); now rewrite IH.
+  - rewrite Hn. cbn [negb]. exact IH.
 Qed.
 
 (* the cells under the 1-entries of the kernel centred on (y, x), clipped at the raster edge, row-major *)
-Definition cells_under (data : grid xq) (kernel : grid Q) (rows cols hr hc y x : Z) : list xq :=
+Definition cells_under {T K} (nan : T) (kd : K) (is_one : K -> bool) (data : grid T) (kernel : grid K)
+           (rows cols hr hc y x : Z) : list T :=
   concat (map (fun i => concat (map (fun j =>
       let yy := y + i - hr in
       let xx := x + j - hc in
-      if (0 <=? yy) && (yy <? rows) && (0 <=? xx) && (xx <? cols) && is_one_q (get2 0%Q kernel i j)
-      then [get2 None data yy xx] else []) (zrange 0 (2 * hc + 1)))) (zrange 0 (2 * hr + 1))).
+      if (0 <=? yy) && (yy <? rows) && (0 <=? xx) && (xx <? cols) && is_one (get2 kd kernel i j)
+      then [get2 nan data yy xx] else []) (zrange 0 (2 * hc + 1)))) (zrange 0 (2 * hr + 1))).
 
-Lemma wvals_window data kernel rows cols hr hc y x :
-  wvals (window_spec None 0%Q is_one_q data kernel rows cols hr hc y x) =
-  somes (cells_under data kernel rows cols hr hc y x).
+Lemma window_valid {T K} (isn : T -> bool) (nan : T) (kd : K) (is_one : K -> bool) data kernel rows cols hr hc y x :
+  isn nan = true ->
+  valid isn (concat (window_spec nan kd is_one data kernel rows cols hr hc y x)) =
+  valid isn (cells_under nan kd is_one data kernel rows cols hr hc y x).
 Proof.
-  unfold wvals, window_spec, tabulate, cells_under, xq.
-  rewrite !somes_concat_map.
-  f_equal. apply map_ext. intros i. cbv zeta.
-  apply (somes_cond_map
+  intros Hn. unfold window_spec, tabulate, cells_under, valid.
+  rewrite !filter_concat, !map_map. f_equal. apply map_ext. intros i. cbv zeta.
+  apply (valid_cond_map isn nan
            (fun j => (0 <=? y + i - hr) && (y + i - hr <? rows) && (0 <=? x + j - hc) && (x + j - hc <? cols) &&
-                     is_one_q (get2 0%Q kernel i j))
-           (fun j => get2 None data (y + i - hr) (x + j - hc))).
+                     is_one (get2 kd kernel i j))
+           (fun j => get2 nan data (y + i - hr) (x + j - hc))); exact Hn.
+Qed.
+
+(* a loop that skips NaN cells is the loop over the valid cells *)
+Lemma fold_skip {T St} (isn : T -> bool) (f : St -> T -> St) l : forall s,
+  fold_left (fun st v => if isn v then st else f st v) l s = fold_left f (valid isn l) s.
+Proof.
+  unfold valid. induction l as [|v l IH]; intros s; cbn [fold_left filter]; [reflexivity|].
+  destruct (isn v); cbn [negb fold_left]; apply IH.
+Qed.
+
+Section ReducersValid.
+  Variable A : Arith.
+  Lemma calc_sum_valid w :
+    calc_sum A w = fold_left (sadd A) (valid (sisnan A) (concat w)) (szero A).
+  Proof. unfold calc_sum. apply fold_skip. Qed.
+  Lemma mean_acc_valid {X} (isn : X -> bool) (cv : X -> T64 A) flat :
+    mean_acc A isn cv flat =
+    fold_left (fun st v => (dadd A (fst st) (cv v), snd st + 1)) (valid isn flat) (dofZ A 0, 0).
+  Proof. unfold mean_acc. apply fold_skip. Qed.
+  Lemma var_acc_valid m flat :
+    var_acc A m flat =
+    fold_left (fun st v => let val := dsub A (widen A v) m in (dadd A (fst st) (dmul A val val), snd st + 1))
+              (valid (sisnan A) flat) (dofZ A 0, 0).
+  Proof. unfold var_acc. apply fold_skip. Qed.
+  Lemma nan_min_max_valid op r0 rest :
+    nan_min_max A op (r0 :: rest) =
+    fold_left (fun r v => if negb (op r v) then v else r) (valid (sisnan A) rest) r0.
+  Proof. unfold nan_min_max. apply fold_skip. Qed.
+End ReducersValid.
+
+(* ---- the exact instance: lists of rationals ---- *)
+Lemma somes_app {X} (l1 l2 : list (option X)) : somes (l1 ++ l2) = somes l1 ++ somes l2.
+Proof. induction l1 as [|[a|] l1 IH]; simpl; congruence. Qed.
+
+Lemma somes_valid (l : list xq) : somes (valid oisnan l) = somes l.
+Proof. unfold valid. induction l as [|[q|] l IH]; cbn; congruence. Qed.
+
+Lemma wvals_window data (kernel : grid xq) is1 rows cols hr hc y x :
+  wvals (window_spec None None is1 data kernel rows cols hr hc y x) =
+  somes (cells_under None None is1 data kernel rows cols hr hc y x).
+Proof.
+  unfold wvals. rewrite <- somes_valid, (window_valid oisnan) by reflexivity. apply somes_valid.
 Qed.
 
 (* ---- comparisons on Q ---- *)
@@ -134,28 +181,31 @@ Proof. unfold qleb, Qle. apply Z.leb_le. Qed.
 Lemma qleb_nle a b : qleb a b = false <-> (b < a)%Q.
 Proof. unfold qleb, Qlt. rewrite Z.leb_gt. reflexivity. Qed.
 
-(* ---- nanmin / nanmax as written in Numba = minimum / maximum of the non-NaN cells ---- *)
+(* ---- nanmin / nanmax as written in Numba = minimum / maximum of the non-NaN cells (exact instance) ---- *)
 Section MinMax.
+  Variable qs : Q -> Q.
   Variable op : Q -> Q -> bool.                 (* qltb for min, flipped for max *)
-  Let xop (a b : xq) : bool := match a, b with Some x, Some y => op x y | _, _ => false end.
+  Variable xop : xq -> xq -> bool.              (* the comparison as the kernel writes it *)
+  Hypothesis Hx : forall r v, xop r (Some v) = match r with Some m => op m v | None => false end.
   Let G (m v : Q) : Q := if negb (op m v) then v else m.
-  Let F (r v : xq) : xq := match v with None => r | Some _ => if negb (xop r v) then v else r end.
+  Let F (r v : xq) : xq := if oisnan v then r else if negb (xop r v) then v else r.
 
   Lemma fold_F_some rest m : fold_left F rest (Some m) = Some (fold_left G (somes rest) m).
   Proof.
     revert m; induction rest as [|[v|] rest IH]; intros m; cbn [fold_left somes]; [reflexivity| |apply IH].
-    unfold F at 2. cbn [xop]. unfold G at 2. destruct (negb (op m v)); apply IH.
+    unfold F at 2. cbn [oisnan]. rewrite Hx. unfold G at 2. destruct (negb (op m v)); apply IH.
   Qed.
 
   Lemma fold_F_none rest :
     fold_left F rest None = match somes rest with [] => None | q :: r => Some (fold_left G r q) end.
   Proof.
     induction rest as [|[v|] rest IH]; cbn [fold_left somes]; [reflexivity| |exact IH].
-    unfold F at 2. cbn [xop negb]. apply fold_F_some.
+    unfold F at 2. cbn [oisnan]. rewrite Hx. cbn [negb]. apply fold_F_some.
   Qed.
 
   Lemma nan_min_max_somes flat :
-    nan_min_max xop flat = match somes flat with [] => None | q :: r => Some (fold_left G r q) end.
+    nan_min_max (ExactArith qs) xop flat =
+    match somes flat with [] => None | q :: r => Some (fold_left G r q) end.
   Proof.
     unfold nan_min_max. destruct flat as [|[q|] rest]; [reflexivity| |].
     - cbn [somes]. apply fold_F_some.
@@ -163,15 +213,23 @@ Section MinMax.
   Qed.
 End MinMax.
 
-Lemma calc_min_somes w :
-  calc_min w = match wvals w with [] => None
-               | q :: r => Some (fold_left (fun m v => if negb (qltb m v) then v else m) r q) end.
-Proof. unfold calc_min, wvals. apply (nan_min_max_somes qltb). Qed.
+Lemma calc_min_somes qs w :
+  calc_min (ExactArith qs) w =
+  match wvals w with [] => None
+  | q :: r => Some (fold_left (fun m v => if negb (qltb m v) then v else m) r q) end.
+Proof.
+  unfold calc_min, wvals. apply (nan_min_max_somes qs qltb).
+  intros [m|] v; reflexivity.
+Qed.
 
-Lemma calc_max_somes w :
-  calc_max w = match wvals w with [] => None
-               | q :: r => Some (fold_left (fun m v => if negb (qltb v m) then v else m) r q) end.
-Proof. unfold calc_max, wvals. apply (nan_min_max_somes (fun a b => qltb b a)). Qed.
+Lemma calc_max_somes qs w :
+  calc_max (ExactArith qs) w =
+  match wvals w with [] => None
+  | q :: r => Some (fold_left (fun m v => if negb (qltb v m) then v else m) r q) end.
+Proof.
+  unfold calc_max, wvals. apply (nan_min_max_somes qs (fun a b => qltb b a)).
+  intros [m|] v; reflexivity.
+Qed.
 
 (* the running minimum is a lower bound and a member *)
 Lemma fold_min_spec r : forall q,
@@ -226,16 +284,15 @@ Definition T99 : Q := 1452410879826985 # 562949953421312.
 
 Definition qsgn (z : Q) : Z := if qltb 0 z then 1 else if qltb z 0 then -1 else 0.
 
-Lemma hot_cell_values z :
-  In (hot_cell z) [0; 90; 95; 99; -90; -95; -99].
+(* every instance: whatever the comparisons answer, the result is one of the seven values *)
+Lemma hot_cell_values A z :
+  In (hot_cell A z) [0; 90; 95; 99; -90; -95; -99].
 Proof.
-  destruct z as [z|]; [|left; reflexivity].
   unfold hot_cell, conf_ladder. cbn [conf_of].
   repeat match goal with |- context [if ?b then _ else _] =>
     match b with
     | andb _ _ => destruct b
-    | qltb 0 z => destruct b
-    | qltb z 0 => destruct b
+    | dltb _ _ _ => destruct b
     end end; cbn; tauto.
 Qed.
 
@@ -247,13 +304,16 @@ Ltac q2prop :=
          | H : qleb _ _ = false |- _ => apply qleb_nle in H
          end.
 
-(* confidence as a function of |z| alone: the p-value ladder of the source never changes the outcome *)
-Lemma hot_cell_ladder z :
-  hot_cell (Some z) =
+(* exact instance: confidence as a function of |z| alone — the p-value ladder of the source never changes the outcome *)
+Lemma hot_cell_ladder qs z :
+  hot_cell (ExactArith qs) (Some z) =
   qsgn z * (if qltb T99 (Qabs z) then 99 else if qltb T95 (Qabs z) then 95 else if qltb T90 (Qabs z) then 90 else 0).
 Proof.
-  unfold hot_cell, qsgn. f_equal.
-  unfold p_ladder, conf_ladder, T99, T95, T90. cbn [p_of conf_of].
+  unfold hot_cell, qsgn.
+  cbn [widen sabs dofZ dltb ExactArith olift1 ocmp].
+  change (inject_Z 0) with 0%Q. f_equal.
+  unfold p_ladder, conf_ladder, T99, T95, T90.
+  cbn [p_of conf_of dleb dltb dconst ExactArith ocmp].
   set (a := Qabs z).
   destruct (qltb (1452410879826985 # 562949953421312) a) eqn:E99;
   destruct (qltb (2206763817411543 # 1125899906842624) a) eqn:E95;
@@ -261,8 +321,11 @@ Proof.
   destruct (qleb (1311673391471657 # 562949953421312) a) eqn:P1;
   destruct (qleb (3715469692580659 # 2251799813685248) a) eqn:P2;
   destruct (qleb (1452410879826985 # 1125899906842624) a) eqn:P3;
-  cbn [andb]; try reflexivity; q2prop; try (exfalso; lra).
+  cbn [andb ocmp]; try reflexivity; q2prop; try (exfalso; lra).
 Qed.
+
+Lemma hot_cell_nan qs : hot_cell (ExactArith qs) None = 0.
+Proof. vm_compute. reflexivity. Qed.
 
 Lemma Qabs_opp_eq z : Qabs (- z) = Qabs z.
 Proof. destruct z as [n d]. unfold Qabs, Qopp. cbn. now rewrite Z.abs_opp. Qed.
@@ -276,14 +339,14 @@ Qed.
 
 Definition xopp (v : xq) : xq := match v with Some q => Some (- q)%Q | None => None end.
 
-Lemma hot_cell_opp z : hot_cell (xopp z) = - hot_cell z.
+Lemma hot_cell_opp qs z : hot_cell (ExactArith qs) (xopp z) = - hot_cell (ExactArith qs) z.
 Proof.
-  destruct z as [z|]; [|reflexivity]. cbn [xopp].
+  destruct z as [z|]; [|rewrite hot_cell_nan; reflexivity]. cbn [xopp].
   rewrite !hot_cell_ladder, Qabs_opp_eq, qsgn_opp. lia.
 Qed.
 
-Lemma calc_hotspots_opp zs :
-  calc_hotspots (map (map xopp) zs) = map (map Z.opp) (calc_hotspots zs).
+Lemma calc_hotspots_opp qs zs :
+  calc_hotspots (ExactArith qs) (map (map xopp) zs) = map (map Z.opp) (calc_hotspots (ExactArith qs) zs).
 Proof.
   unfold calc_hotspots. rewrite !map_map. apply map_ext. intros row.
   rewrite !map_map. apply map_ext. intros z. apply hot_cell_opp.
